@@ -129,6 +129,32 @@ def analysis_failure_site(block, params):
         ib.traceback.print_exc = orig
 
 
+def stack_need(block):
+    """Number of words the block needs on the initial stack (plain stack simulation with the arities of
+    sfs_generator.opcodes); None when an instruction is unknown."""
+    import sfs_generator.opcodes as opc
+    h, need = 0, 0
+    for ins in block.instructions:
+        name = ins.disasm
+        try:
+            if name.startswith("DUP") and name[3:].isdigit():
+                nin, nout = int(name[3:]), int(name[3:]) + 1
+            elif name.startswith("SWAP") and name[4:].isdigit():
+                nin, nout = int(name[4:]) + 1, int(name[4:]) + 1
+            elif name in ("tag", "JUMPDEST"):
+                nin, nout = 0, 0
+            else:
+                o = opc.get_opcode(name)
+                nin, nout = o[1], o[2]
+        except Exception:  # noqa
+            return None
+        if h < nin:
+            need += nin - h
+            h = nin
+        h += nout - nin
+    return need
+
+
 def _cmp_one(params, job):
     """Worker: compare_asm_block_asm_format(B, B'). job = (textB, textB')."""
     import gasol_asm
@@ -147,6 +173,7 @@ def _cmp_one(params, job):
         res["site"] = analysis_failure_site(ba, params)
     res["a"] = evmconv.items_of_block(ba)
     res["b"] = evmconv.items_of_block(bb)
+    res["need"] = [stack_need(ba), stack_need(bb)]
     res["a_plain"], res["b_plain"] = ba.to_plain(), bb.to_plain()
     gasol.cleanup_process()
     return res
@@ -197,7 +224,9 @@ def check(run):
     ok = common.proof_stage(run, "Props/C05.v")
     run.cov["trusted_base"] += [
         "reference semantics Ref/Word.v, Ref/EVM.v; harness/evmconv.py; mutation generator harness/c05.py",
-        "block pairs are generated (mutants), the all-states quantifier is discharged by equiv_block_sound"]
+        "block pairs are generated (mutants), the all-states quantifier is discharged by equiv_block_sound",
+        "pairs rejected in one direction and accepted in the other count as validated when the mutant does not need a deeper "
+        "initial stack overall (harness/c05.py:stack_need: plain stack simulation with GASOL's arity table)"]
     if not ok:
         run.report({"kind": "proof-broken"}, "proof obligations of C05 no longer check: %s" % (run.proof_broken,),
                    {"theorem": "C05_accepted_pairs_indistinguishable (Props/C05.v)", "detail": run.proof_broken}, found_input=False)
@@ -273,6 +302,17 @@ def check(run):
     dist["accepted-pairs:validated"] = sum(1 for v in verdicts if v)
     dist["accepted-pairs:rejected-by-validator"] = sum(1 for v in verdicts if v is False)
     dist["accepted-pairs:unsupported-vocabulary"] = sum(1 for v in verdicts if v is None)
+    # second chance for rejected pairs: equiv_block is directional (the second block may not need a deeper stack in
+    # any event-free segment).  If the REVERSE direction is accepted and the mutant does not need a deeper stack
+    # overall, the two blocks agree on every state on which the original runs: B runs there (enough stack), and
+    # wherever B runs A gives the same result (theorem, reverse direction).
+    rej = [i for i, v in enumerate(verdicts) if v is False]
+    rev = pipeline.coq_pairs([(up[i][1], up[i][0]) for i in rej], "c05rev") if rej else []
+    for i, rv in zip(rej, rev):
+        need = um[i][2].get("need") or [None, None]
+        if rv and need[0] is not None and need[1] is not None and need[1] <= need[0]:
+            verdicts[i] = True
+            dist["accepted-pairs:validated-in-reverse-direction"] += 1
     nrep = 0
     for (opts, kind, val), v in zip(um, verdicts):
         if v is not False:
